@@ -19,7 +19,7 @@ META = {
                  "merge_dicts and the shipped-rulebook diff/patch pipeline",
     "functions": [
         "annet/implicit.py:config", "annet/implicit.py:compile_rules", "annet/implicit.py:compile_tree",
-        "annet/implicit.py:_implicit_tree", "annet/annlib/lib.py:merge_dicts", "annet/api/__init__.py:_diff_and_patch",
+        "annet/implicit.py:_implicit_tree", "annet/annlib/lib.py:merge_dicts", "annet/gen.py:_old_new_per_device (add_implicit)", "annet/api/__init__.py:_diff_and_patch",
         "annet/annlib/rbparser/syntax.py:compile_row_regexp",
     ],
     "rule": "one path per (hardware, tree t[, tree u]) index; rows per rule: absent / the default row / a z3-synthesised other "
@@ -264,6 +264,110 @@ def h_implicit(case: int) -> bool:
     return ok
 
 
+# ---------------------------------------------------------------- production composition: gen._old_new_per_device(add_implicit=True)
+FLOW_HW = [("Huawei S5700", ()), ("Huawei NE40E", ()), ("Cisco Nexus 3432", ()), ("Arista DCS-7368", ())]
+FLOW_DEV_TEXTS = ["", "sysname x\n", "stp mode mstp\n", "netconf\nsysname x\n"]
+FLOW_GEN_ROWS = [[], ["sysname y"], ["stp mode mstp"], ["netconf", "sysname y"]]
+FLOW_ACL = "stp ~\nnetconf\nsysname\naaa\n    ~ %global\nsnmp-server ~\nip ~\n"
+NFLOW = len(FLOW_HW) * len(FLOW_DEV_TEXTS) * len(FLOW_GEN_ROWS)
+
+
+def check_flow(hi, di, gi):
+    import logging
+    logging.disable(logging.CRITICAL)
+    from annet import gen as ann_gen, implicit, api
+    from annet.generators import PartialGenerator
+    from annet.annlib.netdev.views.hardware import HardwareView
+    from annet.annlib.tabparser import parse_to_tree
+    from annet.vendors import registry_connector
+    model, tags = FLOW_HW[hi]
+    hw = HardwareView(model, None)
+    vendor = hw.vendor
+    rows = FLOW_GEN_ROWS[gi]
+
+    class _St:
+        def flush_perf(self):
+            return {}
+
+    class G(PartialGenerator):
+        def acl(self, device):
+            return FLOW_ACL
+
+        def run(self, device):
+            for r in rows:
+                yield r
+
+    class Dev:
+        def __init__(self):
+            self.hw = hw
+            self.hostname = "dev1"
+            self.fqdn = "dev1.example"
+            self.id = 1
+            self.breed = vendor
+            self.tags = list(tags)
+            self.storage = _St()
+
+        def is_pc(self):
+            return False
+
+        def __hash__(self):
+            return 1
+
+    class Args:
+        no_acl = False
+        acl_safe = False
+        no_acl_exclusive = False
+        generators_context = None
+        profile = False
+        fail_on_empty_config = False
+        filter_acl = ""
+        filter_ifaces = None
+        filter_peers = None
+        filter_policies = None
+        required_packages_check = False
+    dev = Dev()
+    ctx = ann_gen.OldNewDeviceContext(
+        config="-", args=Args(), downloaded_files={}, failed_files={}, running={}, failed_running={}, no_new=False,
+        stdin={"config": FLOW_DEV_TEXTS[di], "filter_acl": ""}, add_annotations=False, add_implicit=True, do_files_download=False,
+        gens=ann_gen.DeviceGenerators(partial={dev: [G(_St())]}, ref={dev: []}), fetched_packages={}, failed_packages={},
+        device_count=1, do_print_perf=False)
+    base = {"hw": model, "device_text": FLOW_DEV_TEXTS[di], "generator_rows": rows}
+    try:
+        res = ann_gen._old_new_per_device(ctx, dev, None)
+        if res.err is not None:
+            return True, None, "outside:err:%s" % type(res.err).__name__, False
+        _, patch = api._diff_and_patch(dev, res.old, res.new, res.acl_rules, None, False)
+        fmt = registry_connector.get().match(hw).make_formatter()
+        paths = [tuple(p) for p in fmt.cmd_paths(patch)]
+    except Exception as e:  # noqa
+        return False, dict(base, error=repr(e)), "exception:%s" % type(e).__name__, True
+    explicit = set(k for k in parse_to_tree(FLOW_DEV_TEXTS[di], fmt.split)) | set(rows)
+    rules = implicit.compile_rules(dev)
+    prefix = registry_connector.get().match(hw).reverse
+    for p in paths:
+        if len(p) != 1:
+            continue
+        row = p[0][len(prefix) + 1:] if p[0].startswith(prefix + " ") else p[0]
+        if row in rules and rules[row]["type"] != "ignore" and row not in explicit and \
+                not any(rules[row]["regexp"].match(e) for e in explicit):
+            return False, dict(base, paths=paths, default=row, old=tree_to_json(res.old), new=tree_to_json(res.new)), \
+                "command-for-default-absent-from-both", True
+    return True, None, None, bool(paths)
+
+
+def h_flow(case: int) -> bool:
+    """
+    pre: 0 <= case < NFLOW
+    post: _ == True
+    """
+    c = pick(case, NFLOW)
+    with NoTracing():
+        hi, di, gi = digits(c, [len(FLOW_HW), len(FLOW_DEV_TEXTS), len(FLOW_GEN_ROWS)])
+        ok, detail, kind, nt = check_flow(hi, di, gi)
+        rt.record({"flow": [hi, di, gi]}, ok, [hi, di, gi] if nt else None, detail=detail, fingerprint="C17:gen-flow:%s" % kind)
+    return ok
+
+
 def z_spaces():
     """report sizes and z3 synthesis cost per hardware (evidence only)"""
     out = {}
@@ -298,11 +402,15 @@ def plan(tier):
     obs = []
     for i, (m, _) in enumerate(HWS):
         obs.append(dict(name="implicit[%s]" % m, func="h_implicit", shards=2 if q else 8, timeout=280 if q else 2400, env={"VT_HW": i}))
+    obs.append(dict(name="gen.flow", func="h_flow", shards=2, timeout=200))
     obs.append(dict(name="twin", func="h_twin", shards=1, timeout=100, expect="refuted"))
     return obs
 
 
 def replay(obligation, case):
+    if "flow" in case:
+        ok, detail, kind, _ = check_flow(*case["flow"])
+        return {"ok": ok, "detail": detail, "fingerprint": "C17:gen-flow:%s" % kind}
     c = hw_ctx(case["hw"])
     t = build(c["atoms"], case["t"])
     u = build(c["atoms"], case["u"])
